@@ -2,6 +2,7 @@ import Wx.Job.C06
 import Wx.Job.C07b
 import Wx.Job.C10b
 import Wx.Job.Api
+import Wx.Job.C06w
 /-! # C06 — Graceful stop: signal first, no kill before the grace period, kill at expiry
 
 > A graceful stop or restart delivers the requested signal to the running process immediately, never force-kills it
@@ -61,5 +62,26 @@ theorem extra_respawn_before_repair_only :
     ((runOps { st := { cfg := Fixes.all, behs := [.ignores, .exitsAfter 50, .ignores], hookSet := false, parked := true } }
       [.send .normal [.start] false, .settle, .send .normal [.tryGracefulRestart 15 10] false, .advance 100]).map (·.st.spawnCount) = [2]) :=
   ⟨extra_respawn_today, no_extra_respawn_fixed⟩
+
+/-- **no kill before the grace period, over whole runs**: in every reachable state of every history of graceful
+    controls (any priority, any grace periods ≥ `G`, any child behaviour, any timing, every race resolution) each kill
+    in the log comes at least `G` after a signal to the same child -/
+theorem never_killed_early (G : Nat) (behs : List Beh) (ops : List Op) (hops : GentleOps G ops) :
+    let x0 : Sim := { st := { cfg := Fixes.all, behs := behs, hookSet := true, parked := true } }
+    ∀ y ∈ runOps x0 ops, ∀ t c, (t, Obs.kill c) ∈ y.st.log →
+      ∃ t0 sig, (t0, Obs.signal c sig) ∈ y.st.log ∧ t0 + G ≤ t := c06_no_early_kill G behs ops hops
+
+/-- an armed grace timer always belongs to the running child and never expires earlier than `G` after its signal -/
+theorem timer_never_short (G : Nat) (behs : List Beh) (ops : List Op) (hops : GentleOps G ops) :
+    let x0 : Sim := { st := { cfg := Fixes.all, behs := behs, hookSet := true, parked := true } }
+    ∀ y ∈ runOps x0 ops, ∀ tm, y.st.timer = some tm →
+      ∃ c t0 sig, y.st.cs = .running c ∧ (t0, Obs.signal c sig) ∈ y.st.log ∧ t0 + G ≤ tm.until_ := c06_timer_not_short G behs ops hops
+
+/-- what a script must look like for the two theorems above: nothing forceful, grace ≥ G (here G = 50) -/
+example : GentleOps 50 [.send .normal [.start] false, .settle, .send .high [.gracefulStop 15 50, .start] true, .advance 60,
+    .send .normal [.tryGracefulRestart 1 70, .signal 10, .nextEnding] false, .dropHandles] := by
+  intro o ho
+  simp only [List.mem_cons, List.mem_nil_iff, or_false] at ho
+  rcases ho with rfl | rfl | rfl | rfl | rfl | rfl <;> simp [OpOkFor2, Gentle]
 
 end Props.C06
